@@ -6,11 +6,11 @@ from core.wire import atom, line, parse_reply, Atom
 ID = "C32"
 LEAN_TARGETS = ["TornadoModel.C32.Props"]
 _T = "TornadoModel.C32."
-THEOREMS_PLANNED = [_T + n for n in [
-    "remote_ip_source", "remote_ip_spec_partial", "remote_ip_spec_refuted", "remote_ip_valid_or_socket",
-    "protocol_http_or_https", "unapply_restores", "ctx_restored_after_run", "no_leak", "no_leak_trace", "leak_without_finish",
+THEOREMS = [_T + n for n in [
+    "remote_ip_source", "remote_ip_valid_or_socket", "remote_ip_spec_partial", "remote_ip_spec_refuted",
+    "protocol_http_or_https", "protocol_observed", "unapply_restores", "ctx_restored_after_run", "no_leak", "no_leak_trace",
+    "leak_without_finish",
 ]]
-THEOREMS = [_T + "unapply_restores"]
 TRUSTED = [
     "netutil.is_valid_ip is a parameter of the model (`valid`); the harness evaluates the real function on every candidate string "
     "of the case and hands the accepted ones to the driver (C43 covers is_valid_ip itself)",
@@ -33,7 +33,7 @@ CLAUSES = {
     "X-Forwarded-For entry, else the socket address":
         "remote_ip_source, remote_ip_valid_or_socket, remote_ip_spec_partial (+ remote_ip_spec_refuted: known finding, an "
         "all-trusted X-Forwarded-For list yields its leftmost entry)",
-    "protocol is http or https": "protocol_http_or_https",
+    "protocol is http or https": "protocol_http_or_https, protocol_observed",
     "values derived from one request never affect a later request on the same connection":
         "no_leak, no_leak_trace, unapply_restores, ctx_restored_after_run (leak_without_finish shows the reliance on C05)",
 }
